@@ -83,6 +83,30 @@ CLAIMS = {
             "is decoded by the real code and TLC judges accept/reject and the dictionary key for key.",
             TB + "Lenient numerals (Python int() extras) are a don't-care for acceptance as the property states; "
             "measured semantics in DESIGN appendix A.", "3 C08"),
+    'C12': ("TLA+ spec (Pds.tla: greedy Pack, TLV Walk) model-checked by TLC at scaled constants; real dumps/loads "
+            "executions over the boundary sweep trace-validated by TLC (Layout includes carrier assignment)",
+            "TLC exhaustively checks FitsCap/NoSplit/RoundTrip/Greedy/ordering for every ascending set of <=4 tags x "
+            "every value length at Cap=20; at real constants (999, header 7, carriers from config.py) every pair of value "
+            "lengths putting the running carrier length in 985..1005 (quick: 40 first lengths x 21 sums; thorough: all), "
+            "zero-length and header-like values, sets needing 1..5 carriers are encoded and decoded by the real code and "
+            "TLC compares carrier bytes and PDSxxxx entries.",
+            TB + "Sets beyond carrier capacity and values longer than 992 are outside the statement.", "3 C12"),
+    'C15': ("TLA+ spec (Card.tla: textbook Luhn) model-checked by TLC over every digit string up to a bound; every "
+            "TLC-printed (digits, check digit) replayed on the real functions in-process and in a python -O child; "
+            "recorded calls on long numbers trace-validated by TLC (Trace_Card)",
+            "TLC exhaustively checks AppendValid and Detects (all single substitutions, adjacent transpositions except "
+            "0/9) for all digit strings of length <= 4 (quick) / 6 (thorough); all of them are replayed on "
+            "calculate/add/validate in normal and optimised interpreter mode; numbers to 40 digits with separators and "
+            "all their substitutions/transpositions are judged by TLC in both modes.",
+            TB + "The -O child is the same interpreter started with -O.", "3 C15"),
+    'C16': ("TLA+ spec (Card.tla MaskOf/MaskProps; Iso8583.tla PAN / PAN-PREFIX processors, Leaks) model-checked and "
+            "evaluated by TLC on recorded mask() calls and on loads() results under masking configurations",
+            "TLC exhaustively checks MaskProps over strings of length 10..11 (thorough 13) over {digit, letter, mask "
+            "char}; recorded mask() calls (length 10..40, arbitrary characters and mask characters) and decodes under "
+            "configurations putting PAN / PAN-PREFIX on each of the 17 variable-length text elements of the packaged "
+            "configuration, with position-distinct card numbers, are judged by TLC: masked value / first nine returned, "
+            "clear number a substring of no returned value.",
+            TB + "Numbers shorter than 10 and multi-character mask strings are outside the statement.", "3 C16"),
 }
 
 PENDING = "check not built yet in this round (specification under construction; see DESIGN.md section 3)"
